@@ -129,9 +129,91 @@ def main():
             bad += not ok
         except Exception as ex:
             print('ERROR', sc['op'], repr(ex)[:300]); bad += 1
+    bad += other_paths()
     bad += tape_vs_file()
     print('crosscheck', 'OK' if not bad else 'FAILED (%d)' % bad)
     return 1 if bad else 0
+
+
+# ---------------------------------------------------------------------------------------------
+# rectgeo, block_mapping and point search on concrete inputs
+
+def other_paths():
+    from pyvc.engine import Engine, NVec
+    bad = 0
+    cases = [dict(dx=[10, 25], dy=[15, 5], dz=[4, 6, 3], org=[3, -7, 100], atm=0, surf={1: 95}, tdx=[7, 9, 30], tdz=[5, 9], pts=[[8, -1], [20, 10], [100, 0], [13, 8]], rot=0),
+             dict(dx=[10, 25, 4], dy=[15, 5], dz=[4, 6], org=[0, 0, 0], atm=1, surf={}, tdx=[20, 19], tdz=[3, 3, 4], pts=[[1, 1], [38, 19]], rot=90)]
+    for sc in cases:
+        code = r'''
+import sys, json
+sys.path.insert(0, %r)
+import numpy as np
+from mulgrids import mulgrid
+from t2grids import t2grid
+sc = json.loads(%r)
+F = lambda xs: [float(x) for x in xs]
+g = mulgrid().rectangular(F(sc['dx']), F(sc['dy']), F(sc['dz']), origin=F(sc['org']), atmos_type=sc['atm'])
+for k, s in sc['surf'].items():
+    c = g.columnlist[int(k)]; c.surface = float(s); g.set_column_num_layers(c)
+g.setup_block_name_index(); g.setup_block_connection_name_index()
+tgt = mulgrid().rectangular(F(sc['tdx']), F(sc['dy']), F(sc['tdz']), origin=F(sc['org']), atmos_type=sc['atm'])
+mp = g.block_mapping(tgt)
+loc = [getattr(g.column_containing_point(np.array(p, float)), 'name', None) for p in sc['pts']]
+qt = g.column_quadtree()
+locq = [getattr(g.column_containing_point(np.array(p, float), qtree=qt), 'name', None) for p in sc['pts']]
+if sc['rot']:
+    g.rotate(sc['rot'], np.array(sc['org'][:2], float)); g.permeability_angle = -sc['rot']
+t = t2grid().fromgeo(g)
+g2, bm = t.rectgeo(atmos_type=sc['atm'])
+sig = {'mapping': sorted(mp.items()), 'locate': loc, 'locate_qtree': locq, 'blockmap': sorted(bm.items()), 'angle': round(float(g2.permeability_angle), 6) + 0.0,
+       'thick': [round(l.top - l.bottom, 6) for l in g2.layerlist[1:]], 'nodes': sorted((round(n.pos[0], 6), round(n.pos[1], 6)) for n in g2.nodelist),
+       'surfaces': [round(c.surface, 6) + 0.0 for c in g2.columnlist]}
+print('@@' + json.dumps(sig))
+''' % (REPO, json.dumps(sc))
+        p = subprocess.run(['/venv/bin/python', '-W', 'ignore', '-c', code], capture_output=True, text=True, cwd='/var/tmp')
+        line = [l for l in p.stdout.split('\n') if l.startswith('@@')]
+        if not line:
+            print('ERROR native', p.stderr[-300:]); bad += 1; continue
+        a = json.loads(line[0][2:])
+        e = Engine(REPO, timeout_ms=20000, extra_paths=['/verif/contracts'])
+        out = {}
+        def num(v):
+            from pyvc.values import to_real
+            import z3
+            if isinstance(v, (int, Fraction)): return float(v)
+            w = z3.simplify(to_real(v))
+            return float(Fraction(w.numerator_as_long(), w.denominator_as_long()))
+        def prog(e):
+            m = e.load_module('mulgrids').globals
+            F = lambda xs: [Fraction(x) for x in xs]
+            g = e.call(e.getattr(e.call(m['mulgrid'], []), 'rectangular'), [F(sc['dx']), F(sc['dy']), F(sc['dz'])], {'origin': F(sc['org']), 'atmos_type': sc['atm']})
+            for k, sv in sc['surf'].items():
+                c = g.fields['columnlist'][int(k)]; e.setattr(c, 'surface', Fraction(sv)); e.call(e.getattr(g, 'set_column_num_layers'), [c])
+            e.call(e.getattr(g, 'setup_block_name_index'), []); e.call(e.getattr(g, 'setup_block_connection_name_index'), [])
+            tgt = e.call(e.getattr(e.call(m['mulgrid'], []), 'rectangular'), [F(sc['tdx']), F(sc['dy']), F(sc['tdz'])], {'origin': F(sc['org']), 'atmos_type': sc['atm']})
+            mp = e.call(e.getattr(g, 'block_mapping'), [tgt])
+            name = lambda c: c.fields['name'] if c is not None else None
+            loc = [name(e.call(e.getattr(g, 'column_containing_point'), [NVec(F(p))])) for p in sc['pts']]
+            qt = e.call(e.getattr(g, 'column_quadtree'), [])
+            locq = [name(e.call(e.getattr(g, 'column_containing_point'), [NVec(F(p))], {'qtree': qt})) for p in sc['pts']]
+            if sc['rot']:
+                e.call(e.getattr(g, 'rotate'), [sc['rot'], NVec(F(sc['org'][:2]))]); g.fields['permeability_angle'] = -sc['rot']
+            t = e.call(e.getattr(e.call(e.load_module('t2grids').globals['t2grid'], []), 'fromgeo'), [g])
+            g2, bm = e.call(e.getattr(t, 'rectgeo'), [], {'atmos_type': sc['atm']})
+            out.update({'mapping': sorted([list(kv) for kv in mp.items()]), 'locate': loc, 'locate_qtree': locq, 'blockmap': sorted([list(kv) for kv in bm.items()]),
+                        'angle': round(num(g2.fields['permeability_angle']), 6) + 0.0, 'thick': [round(num(l.fields['top']) - num(l.fields['bottom']), 6) for l in g2.fields['layerlist'][1:]],
+                        'nodes': sorted([round(num(n.fields['pos'].items[0]), 6), round(num(n.fields['pos'].items[1]), 6)] for n in g2.fields['nodelist']),
+                        'surfaces': [round(num(e.getattr(c, 'surface')), 6) + 0.0 for c in g2.fields['columnlist']]})
+        try:
+            n = e.explore(prog, 'other')
+            diff = [k for k in a if json.dumps(a[k]) != json.dumps(json.loads(json.dumps(out.get(k))))]
+            ok = not diff and n == 1
+            print('%s mapping / point search / rectgeo rot=%s paths=%d %s' % ('agree ' if ok else 'DIFFER', sc['rot'], n, '' if ok else [(k, a[k], out.get(k)) for k in diff][:2]))
+            bad += not ok
+        except Exception as ex:
+            import traceback; traceback.print_exc(limit=-2)
+            print('ERROR engine', repr(ex)[:300]); bad += 1
+    return bad
 
 
 # ---------------------------------------------------------------------------------------------
